@@ -36,6 +36,8 @@ struct Flags {
 enum RespClass {
     Positive,
     CnameChain,
+    /// A CNAME whose target has no data of the type: NODATA (RFC 2308 2.2).
+    CnameNoData,
     NoData,
     NxDomainSoa,
     NxDomainNoSoa,
@@ -129,6 +131,7 @@ impl SendRequest<RequestMessage<Vec<u8>>> for UpstreamStub {
                         RespClass::Positive,
                         RespClass::Positive,
                         RespClass::CnameChain,
+                        RespClass::CnameNoData,
                         RespClass::NoData,
                         RespClass::NxDomainSoa,
                         RespClass::NxDomainNoSoa,
@@ -140,7 +143,7 @@ impl SendRequest<RequestMessage<Vec<u8>>> for UpstreamStub {
                     ],
                 )
             } else {
-                *sim::pick("up.class", &[RespClass::Positive, RespClass::CnameChain, RespClass::NoData, RespClass::NxDomainSoa, RespClass::Delegation])
+                *sim::pick("up.class", &[RespClass::Positive, RespClass::CnameChain, RespClass::NoData, RespClass::NxDomainSoa, RespClass::Delegation, RespClass::CnameNoData])
             };
             let serial = {
                 let g = st.lock().unwrap();
@@ -163,6 +166,7 @@ impl SendRequest<RequestMessage<Vec<u8>>> for UpstreamStub {
             sim::stat(match class {
                 RespClass::Positive => "up.positive",
                 RespClass::CnameChain => "up.cname",
+                RespClass::CnameNoData => "up.cname_nodata",
                 RespClass::NoData => "up.nodata",
                 RespClass::NxDomainSoa => "up.nxdomain_soa",
                 RespClass::NxDomainNoSoa => "up.nxdomain_nosoa",
@@ -250,6 +254,14 @@ fn build_response(req: &Message<Vec<u8>>, qname: &str, qtype: Rtype, flags: Flag
                 ab.push((&owner, Class::IN, Ttl::from_secs(ttl), sig(qtype, ttl))).unwrap();
             }
         }
+        RespClass::CnameNoData => {
+            let ttl = ttl_draw("up.ttl");
+            let target = dns::name(&format!("t{:x}.cache.", serial));
+            ab.push((&owner, Class::IN, Ttl::from_secs(ttl), Cname::new(target))).unwrap();
+            if flags.dnssec_ok {
+                ab.push((&owner, Class::IN, Ttl::from_secs(ttl), sig(Rtype::CNAME, ttl))).unwrap();
+            }
+        }
         RespClass::CnameChain => {
             let ttl = ttl_draw("up.ttl");
             let target = dns::name(&format!("t{:x}.cache.", serial));
@@ -273,7 +285,7 @@ fn build_response(req: &Message<Vec<u8>>, qname: &str, qtype: Rtype, flags: Flag
         Ttl::from_secs(300),
     );
     match class {
-        RespClass::NoData | RespClass::NxDomainSoa => {
+        RespClass::NoData | RespClass::NxDomainSoa | RespClass::CnameNoData => {
             let ttl = ttl_draw("up.soa_ttl");
             au.push((&apex, Class::IN, Ttl::from_secs(ttl), soa)).unwrap();
             if flags.dnssec_ok {
